@@ -1149,7 +1149,7 @@ class Lookup(Function):
             self.points = points
 
     def term(self, time="t"):
-        return "model._lookup({},{})".format(self.element, self.points)
+        return "model._lookup({},{})".format(extractTerm(self.element, time), self.points)
 
 
 class Step(Function):
